@@ -70,6 +70,11 @@ def generate(rng, tier, index):
     if index < 2 * len(strat) * 2:
         ops.append(driver.gen_op(rng, recipe, strat[(index // 2) % len(strat)], allow, p_each))
         ops.append(driver.gen_op(rng, recipe, "predict", allow, p_each))
+    elif thorough and index < 2 * len(strat) * 2 + 2 * len(strat) ** 2:
+        j = (index - 2 * len(strat) * 2) // 2
+        ops.append(driver.gen_op(rng, recipe, strat[j % len(strat)], allow, p_each))
+        ops.append(driver.gen_op(rng, recipe, strat[(j // len(strat)) % len(strat)], allow, p_each))
+        ops.append(driver.gen_op(rng, recipe, "predict", allow, p_each))
     while len(ops) < max_len:
         ops.append(driver.gen_op(rng, recipe, core.weighted_choice(rng, items), allow, p_each))
     if ops[-1]["op"] != "predict":
